@@ -641,6 +641,7 @@ def _run_cwd(case):
     i.e. all results are those of the reference, as in an empty directory."""
     from cij.io.config import apply_default_config, validate_config, read_config
     layout = case["layout"]
+    ops = case.get("ops", "all")          # "all" | "apply" | "validate:<k>/<n>"  (a layout is split to balance the pool)
     files = cwd_layouts().get(layout)
     if files is None:
         raise HarnessError(f"unknown layout {layout}")
@@ -668,7 +669,7 @@ def _run_cwd(case):
             json.dump(bad, fp)
         os.chdir(tmp)
         # effective configuration
-        for name, u0 in users.items():
+        for name, u0 in (users.items() if ops in ("all", "apply") else ()):
             u = R.clone(u0)
             calls += 1
             try:
@@ -685,6 +686,11 @@ def _run_cwd(case):
         base = _shipped(R.DEFAULT_REL)
         todo = [(p, R.apply_perturbation(base, p)) for p in R.perturbations() if p["expect"] != "unasserted"]
         todo += [({"id": rel, "expect": "accept", "cls": "shipped"}, R.clone(_shipped(rel))) for rel in R.SHIPPED_REL]
+        if ops == "apply":
+            todo = []
+        elif ops.startswith("validate:"):
+            k, n = (int(x) for x in ops[9:].split("/"))
+            todo = todo[k::n]
         for pert, cfg in todo:
             calls += 1
             verdict, why = _verdict(validate_config, cfg)
@@ -695,15 +701,16 @@ def _run_cwd(case):
                 viol.add(f"c16:cwd:{layout}:validate-{verdict.split(':')[0]}:{pert['cls']}",
                          f"cwd holds {[f for f, _ in files]}: {pert['id']}: {verdict} {why}, must be accepted", len(pert["id"]))
         # files read by relative and absolute path
-        for fn, exp in (("user_good.yaml", "accepted"), (os.path.join(tmp, "user_good.yaml"), "accepted"),
-                        ("user_bad.json", "rejected"), (os.path.join(tmp, "user_bad.json"), "rejected")):
+        for fn, exp in ((("user_good.yaml", "accepted"), (os.path.join(tmp, "user_good.yaml"), "accepted"),
+                         ("user_bad.json", "rejected"), (os.path.join(tmp, "user_bad.json"), "rejected"))
+                        if ops in ("all", "apply") else ()):
             calls += 1
             verdict, why = _verdict(read_config, fn)
             if verdict != exp:
                 viol.add(f"c16:cwd:{layout}:read-{verdict.split(':')[0]}", f"cwd holds {[f for f, _ in files]}: read_config({os.path.basename(fn)}) "
                          f"{verdict} {why}, expected {exp}", 0)
         try:
-            got = read_config("user_good.yaml")
+            got = read_config("user_good.yaml", validate=False)
             if not R.same(got, good):
                 viol.add(f"c16:cwd:{layout}:read-differs", f"read_config(user_good.yaml) = {_js(got)}", 0)
         except Exception:
@@ -712,7 +719,7 @@ def _run_cwd(case):
         os.chdir(old)
         shutil.rmtree(tmp, ignore_errors=True)
     v = viol.out()
-    return {"viol": v, "nontrivial": bool(files), "outcome": "cwd:" + ("ok" if not v else "violation"), "key": "cwd:" + layout,
+    return {"viol": v, "nontrivial": bool(files), "outcome": "cwd:" + ("ok" if not v else "violation"), "key": "cwd:" + layout + ":" + ops,
             "calls": calls}
 
 
@@ -1168,9 +1175,10 @@ def explore(ctx):
     scases = [dict(c, kind="yamlspell") for c in yaml_spellings()]
     ctx.run(MOD, "run_case", scases, part="yaml-anchors-merge-keys", transitions=6 * len(scases))
 
-    wcases = [{"kind": "cwd", "layout": name} for name in cwd_layouts()]
+    wcases = [{"kind": "cwd", "layout": name, "ops": ops} for name in cwd_layouts()
+              for ops in ("apply", "validate:0/3", "validate:1/3", "validate:2/3")]
     res = ctx.run(MOD, "run_case", wcases, part="working-directory", states=0, transitions=0, chunksize=1)
-    ctx.states += len(wcases)
+    ctx.states += len(cwd_layouts())
     ctx.transitions += sum(r.get("calls", 0) for r in res)
 
     hcases = [{"kind": "history", "seq": list(s)} for s in X.sequences(H_OPS, 3, min_len=1)]
@@ -1185,7 +1193,7 @@ def explore(ctx):
         "apply_conflict_values": len(CONFLICT_VALUES),
         "validate_bases": len(R.SHIPPED_REL), "validate_fields": len(R.FIELDS), "validate_perturbations": len(perts),
         "validate_by_expectation": dict(Counter(p["expect"] for p in perts)),
-        "yamljson_objects": len(ycases), "yaml_spellings": len(scases), "cwd_layouts": len(wcases), "history_ops": len(H_OPS), "history_max_len": 3, "history_sequences": len(hcases),
+        "yamljson_objects": len(ycases), "yaml_spellings": len(scases), "cwd_layouts": len(cwd_layouts()), "history_ops": len(H_OPS), "history_max_len": 3, "history_sequences": len(hcases),
     }
 
 
